@@ -225,16 +225,35 @@ pub struct Library { pub name: String, pub units: Units, pub cells: Vec<Ptr<Cell
 pub open spec fn gds_units_of(u: Units) -> (f64, f64) {
     match u { Units::Micro => (1.0f64, 1e-6f64), Units::Nano => (1e-3f64, 1e-9f64), Units::Angstrom => (1e-4f64, 1e-10f64), Units::Pico => (1e-6f64, 1e-12f64) }
 }
+/// what export_layout needs of a layout: its element count fits, and every shape is exportable
+pub open spec fn layout_pre(cell: Layout) -> bool { cell.elems@.len() + cell.insts@.len() <= usize::MAX && forall|i: int| 0 <= i < cell.elems@.len() ==> shape_pre((#[trigger] cell.elems@[i]).inner) }
+/// GDSII structure `g` is the export of layout `cell`: its name; first one structure reference per instance, in order; then the exports of the elements, in order
+pub open spec fn layout_gds(g: gds21::GdsStruct, cell: Layout) -> bool {
+    let n = cell.insts@.len() as int;
+    &&& g.name@ == cell.name@ &&& g.elems@.len() >= n
+    &&& forall|i: int| 0 <= i < n ==> (#[trigger] g.elems@[i]) is GdsStructRef && sref_gds(g.elems@[i]->GdsStructRef_0, cell.insts@[i])
+    &&& elems_gds(g.elems@.skip(n), cell.elems@)
+}
+/// the structures of an exported library: one per cell that has a layout (its export) or, failing that, an abstract; in library order; nothing for a cell with neither
+pub open spec fn structs_are(gs: Seq<gds21::GdsStruct>, cells: Seq<Ptr<Cell>>) -> bool decreases cells.len() {
+    if cells.len() == 0 { gs.len() == 0 } else {
+        let c = pointee(cells.last());
+        if c.layout is Some { gs.len() >= 1 && structs_are(gs.drop_last(), cells.drop_last()) && layout_gds(gs.last(), c.layout->0) }
+        else if c.abs is Some { gs.len() >= 1 && structs_are(gs.drop_last(), cells.drop_last()) }
+        else { structs_are(gs, cells.drop_last()) }
+    }
+}
+pub open spec fn cells_pre(cells: Seq<Ptr<Cell>>) -> bool { forall|i: int| 0 <= i < cells.len() ==> (pointee(#[trigger] cells[i]).layout is Some ==> layout_pre(pointee(cells[i]).layout->0)) }
 impl<'lib> GdsExporter<'lib> {
 //@ fn layout21raw/src/gds.rs :: impl<'lib> GdsExporter<'lib> :: fn export_point
 //@   ret r
 //@   spec
-//|     ensures final(self).ctx == old(self).ctx, r is Ok <==> fits32(*pt), r is Ok ==> same_pt(r->Ok_0, *pt),
+//|     ensures final(self).lib == old(self).lib, final(self).ctx == old(self).ctx, r is Ok <==> fits32(*pt), r is Ok ==> same_pt(r->Ok_0, *pt),
 //@ end
     /// ASSUMED element-wise contract of `points.iter().map(|p| self.export_point(p)).collect::<Result<Vec<_>, _>>()?` (rule R6)
     #[verifier::external_body]
     fn vp_export_points(&mut self, pts: &Vec<Point>) -> (r: LayoutResult<Vec<gds21::GdsPoint>>)
-        ensures final(self).ctx == old(self).ctx, r is Ok <==> all_fit32(pts@), r is Ok ==> same_pts(r->Ok_0@, pts@),
+        ensures final(self).lib == old(self).lib, final(self).ctx == old(self).ctx, r is Ok <==> all_fit32(pts@), r is Ok ==> same_pts(r->Ok_0@, pts@),
     { unimplemented!() }
 //@ fn layout21raw/src/gds.rs :: impl<'lib> GdsExporter<'lib> :: fn export_shape
 //@   ret r
@@ -242,9 +261,9 @@ impl<'lib> GdsExporter<'lib> {
 //@   sub R3 /let mut xy = Vec::new\(\);/ => let mut xy: Vec<gds21::GdsPoint> = Vec::new();
 //@   spec
 //|     requires match *shape { Shape::Polygon(p) => p.points.len() >= 1, Shape::Path(p) => p.points.len() >= 1, _ => true },
-//|     ensures r is Ok ==> final(self).ctx@ == old(self).ctx@ && shape_gds(*shape, r->Ok_0, *layerspec),
+//|     ensures final(self).lib == old(self).lib, r is Ok ==> final(self).ctx@ == old(self).ctx@ && shape_gds(*shape, r->Ok_0, *layerspec),
 //@   loop 1 iter it
-//|                     invariant self.ctx == old(self).ctx, same_pts(xy@, path.points@.take(it.index@ as int)), it.index@ <= path.points@.len(),
+//|                     invariant self.lib == old(self).lib, self.ctx == old(self).ctx, same_pts(xy@, path.points@.take(it.index@ as int)), it.index@ <= path.points@.len(),
 //@   loopend 1
 //|                     proof { assert(path.points@.take(it.index@ + 1) == path.points@.take(it.index@ as int).push(*p)); }
 //@ end
@@ -254,7 +273,7 @@ impl<'lib> GdsExporter<'lib> {
 //@   sub R5 /string: net\.into\(\),/ => string: net.clone(),
 //@   spec
 //|     requires shape_ok(*shape),
-//|     ensures r is Ok ==> final(self).ctx@ == old(self).ctx@ && label_gds(r->Ok_0, net@, *shape, *layerspec),
+//|     ensures final(self).lib == old(self).lib, r is Ok ==> final(self).ctx@ == old(self).ctx@ && label_gds(r->Ok_0, net@, *shape, *layerspec),
 //@ end
 }
 
@@ -278,11 +297,16 @@ impl<T> Clone for Ptr<T> {
     #[verifier::external_body]
     fn clone(&self) -> (r: Ptr<T>) ensures r == *self { unimplemented!() }
 }
-pub struct Cell { pub name: String }
+/// abstract views are opaque here (the GDSII exporter writes them through export_abstract, which is outside the units)
+pub struct Abstract { pub name: String }
+//@ item layout21raw/src/data.rs :: struct Cell
+//@ end
+/// the cell a handle points to (handles are opaque ids, so libraries with shared and even cyclic cells are representable)
+pub uninterp spec fn pointee(p: Ptr<Cell>) -> Cell;
 impl Ptr<Cell> {
     /// model of Ptr::read (RwLock read): the pointee, or a lock-poison error
     #[verifier::external_body]
-    pub fn read(&self) -> (r: LayoutResult<&Cell>) { unimplemented!() }
+    pub fn read(&self) -> (r: LayoutResult<&Cell>) ensures r is Ok ==> *r->Ok_0 == pointee(*self) { unimplemented!() }
 }
 /// model of `HashMap<String, Ptr<Cell>>` used read-only by the element importers
 pub struct CellMap { pub m: Vec<Ptr<Cell>> }
@@ -323,7 +347,7 @@ impl LayerTable {
 //@   sub R5 /pub layers: Ptr<Layers>,/ => pub layers: LayerTable,
 //@   sub R4 /\n    unsupported:/ => \n    pub unsupported:
 //@   sub R5 /cell_map: HashMap<String, Ptr<Cell>>,/ => pub cell_map: CellMap,
-//@   sub R5 /lib: Library,/ =>
+//@   sub R4 /\n    lib: Library,/ => \n    pub lib: Library,
 //@   sub R4 /\n    ctx:/ => \n    pub ctx:
 //@ end
 /// R11: the floating-point expressions of the rotated-array branch, each wrapped verbatim (Verus has no f64 arithmetic or f64->int cast).
@@ -430,36 +454,36 @@ impl GdsImporter {
     /// GDSII layer number (`knum`; keys are never renumbered) — assumption, the shared layer table is outside the unit
     #[verifier::external_body]
     fn import_element_layer<E: VpHasLayer>(&mut self, elem: &E) -> (r: LayoutResult<(LayerKey, LayerPurpose)>)
-        ensures final(self).cell_map == old(self).cell_map, final(self).unsupported == old(self).unsupported, final(self).ctx == old(self).ctx, r is Ok ==> knum(r->Ok_0.0) == elem.gds_layer(),
+        ensures final(self).cell_map == old(self).cell_map, final(self).lib == old(self).lib, final(self).unsupported == old(self).unsupported, final(self).ctx == old(self).ctx, r is Ok ==> knum(r->Ok_0.0) == elem.gds_layer(),
     { unimplemented!() }
 //@ fn layout21raw/src/gds.rs :: impl GdsImporter :: fn import_point
 //@   ret r
 //@   spec
-//|     ensures r is Ok, same_pt(*pt, r->Ok_0), final(self).cell_map == old(self).cell_map, final(self).unsupported == old(self).unsupported, final(self).ctx == old(self).ctx,
+//|     ensures r is Ok, same_pt(*pt, r->Ok_0), final(self).cell_map == old(self).cell_map, final(self).lib == old(self).lib, final(self).unsupported == old(self).unsupported, final(self).ctx == old(self).ctx,
 //@ end
     /// ASSUMED element-wise contract of `pts.iter().map(|p| self.import_point(p)).collect::<Result<Vec<_>, _>>()` (rule R6)
     #[verifier::external_body]
     fn import_point_vec(&mut self, pts: &Vec<gds21::GdsPoint>) -> (r: LayoutResult<Vec<Point>>)
-        ensures r is Ok, same_pts(pts@, r->Ok_0@), final(self).cell_map == old(self).cell_map, final(self).unsupported == old(self).unsupported, final(self).ctx == old(self).ctx,
+        ensures r is Ok, same_pts(pts@, r->Ok_0@), final(self).cell_map == old(self).cell_map, final(self).lib == old(self).lib, final(self).unsupported == old(self).unsupported, final(self).ctx == old(self).ctx,
     { unimplemented!() }
 //@ fn layout21raw/src/gds.rs :: impl GdsImporter :: fn import_boundary
 //@   ret r
 //@   spec
-//|     ensures final(self).cell_map == old(self).cell_map, final(self).unsupported == old(self).unsupported, r is Ok ==> final(self).ctx@ == old(self).ctx@ && boundary_imp(r->Ok_0, *x),
+//|     ensures final(self).cell_map == old(self).cell_map, final(self).lib == old(self).lib, final(self).unsupported == old(self).unsupported, r is Ok ==> final(self).ctx@ == old(self).ctx@ && boundary_imp(r->Ok_0, *x),
 //@   before /^        Ok\(e\)$/
 //|         proof { assert(self.ctx@ =~= old(self).ctx@); }
 //@ end
 //@ fn layout21raw/src/gds.rs :: impl GdsImporter :: fn import_box
 //@   ret r
 //@   spec
-//|     ensures final(self).cell_map == old(self).cell_map, final(self).unsupported == old(self).unsupported, r is Ok ==> final(self).ctx@ == old(self).ctx@ && box_imp(r->Ok_0, *x),
+//|     ensures final(self).cell_map == old(self).cell_map, final(self).lib == old(self).lib, final(self).unsupported == old(self).unsupported, r is Ok ==> final(self).ctx@ == old(self).ctx@ && box_imp(r->Ok_0, *x),
 //@   before /^        Ok\(e\)$/
 //|         proof { assert(self.ctx@ =~= old(self).ctx@); }
 //@ end
 //@ fn layout21raw/src/gds.rs :: impl GdsImporter :: fn import_path
 //@   ret r
 //@   spec
-//|     ensures final(self).cell_map == old(self).cell_map, final(self).unsupported == old(self).unsupported, r is Ok ==> final(self).ctx@ == old(self).ctx@ && path_imp(r->Ok_0, *x),
+//|     ensures final(self).cell_map == old(self).cell_map, final(self).lib == old(self).lib, final(self).unsupported == old(self).unsupported, r is Ok ==> final(self).ctx@ == old(self).ctx@ && path_imp(r->Ok_0, *x),
 //|         x.width is None ==> r is Err,
 //@   before /^        Ok\(e\)$/
 //|         proof { assert(self.ctx@ =~= old(self).ctx@); }
@@ -472,7 +496,7 @@ impl GdsImporter {
 //@   ret r
 //@   sub R7 /let inst_name = ""\.into\(\);/ => let inst_name = String::new();
 //@   spec
-//|     ensures final(self).cell_map == old(self).cell_map, final(self).unsupported == old(self).unsupported,
+//|     ensures final(self).cell_map == old(self).cell_map, final(self).lib == old(self).lib, final(self).unsupported == old(self).unsupported,
 //|         r is Ok ==> final(self).ctx@ == old(self).ctx@ && sref_imp(r->Ok_0, *sref, old(self).cell_map),
 //|         old(self).cell_map.lookup(sref.name@) is None ==> r is Err,
 //|         (sref.strans is Some && (sref.strans->0.abs_mag || sref.strans->0.abs_angle)) ==> r is Err,
@@ -486,7 +510,7 @@ impl GdsImporter {
 //@   sub R11 /let prev_xy = \(f64::from\(prev_xy\.0\), f64::from\(prev_xy\.1\)\);/ => let prev_xy = (vp_i32_as_f64(prev_xy.0), vp_i32_as_f64(prev_xy.1));
 //@   let insts : Vec<Instance>
 //@   spec
-//|     ensures final(self).cell_map == old(self).cell_map, final(self).unsupported == old(self).unsupported,
+//|     ensures final(self).cell_map == old(self).cell_map, final(self).lib == old(self).lib, final(self).unsupported == old(self).unsupported,
 //|         (r is Ok && r->Ok_0 is Some) ==> final(self).ctx@ == old(self).ctx@,
 //|         // no array placement is silently dropped: either an error or the placements
 //|         r is Ok ==> r->Ok_0 is Some,
@@ -571,61 +595,74 @@ impl<'lib> GdsExporter<'lib> {
 //@   ret r
 //@   sub R6 /inst\.angle\.map\(\|a\| f64::from\(a\)\)/ => inst.angle
 //@   spec
-//|     ensures r is Ok ==> final(self).ctx@ == old(self).ctx@ && sref_gds(r->Ok_0, *inst),
+//|     ensures final(self).lib == old(self).lib, r is Ok ==> final(self).ctx@ == old(self).ctx@ && sref_gds(r->Ok_0, *inst),
 //@   before /^        Ok\(gdsinst\)$/
 //|         proof { assert(self.ctx@ =~= old(self).ctx@); }
 //@ end
-    /// ASSUMED contract of export_cell (layout if present, else abstract, else nothing; not extracted: needs the abstract exporter)
+    /// abstract views are outside the units: ASSUMED frame only (the error-context stack is restored, the library untouched)
     #[verifier::external_body]
-    fn export_cell(&mut self, cell: &Cell) -> (r: LayoutResult<Option<gds21::GdsStruct>>)
+    fn export_abstract(&mut self, abs: &Abstract) -> (r: LayoutResult<gds21::GdsStruct>)
         ensures final(self).lib == old(self).lib, r is Ok ==> final(self).ctx@ == old(self).ctx@,
     { unimplemented!() }
+//@ fn layout21raw/src/gds.rs :: impl<'lib> GdsExporter<'lib> :: fn export_cell
+//@   ret r
+//@   spec
+//|     requires cell.layout is Some ==> layout_pre(cell.layout->0),
+//|     ensures final(self).lib == old(self).lib, r is Ok ==> final(self).ctx@ == old(self).ctx@
+//|         // the layout if there is one, else the abstract, else nothing
+//|         && (cell.layout is Some ==> r->Ok_0 is Some && layout_gds(r->Ok_0->0, cell.layout->0))
+//|         && (cell.layout is None && cell.abs is Some ==> r->Ok_0 is Some) && (cell.layout is None && cell.abs is None ==> r->Ok_0 is None),
+//@   before /^        Ok\(strukt_option\)$/
+//|         proof { assert(self.ctx@ =~= old(self).ctx@); }
+//@ end
 //@ fn layout21raw/src/gds.rs :: impl<'lib> GdsExporter<'lib> :: fn export_lib
 //@   ret r
 //@   spec
-//|     ensures r is Ok ==> final(self).ctx@ == old(self).ctx@ && r->Ok_0.name@ == old(self).lib.name@
+//|     requires cells_pre(old(self).lib.cells@),
+//|     ensures final(self).lib == old(self).lib, r is Ok ==> final(self).ctx@ == old(self).ctx@ && r->Ok_0.name@ == old(self).lib.name@
 //|         // the database unit of each raw length unit, with a one-micron user unit
 //|         && r->Ok_0.units.0 == gds_units_of(old(self).lib.units).0 && r->Ok_0.units.1 == gds_units_of(old(self).lib.units).1
-//|         && r->Ok_0.structs@.len() <= old(self).lib.cells@.len(),
+//|         // one structure per cell that has a view, in library order, none dropped
+//|         && structs_are(r->Ok_0.structs@, old(self).lib.cells@),
 //@   after /self\.ctx\.push\(ErrorContext::Library\(self\.lib\.name\.clone\(\)\)\);/
 //|         let ghost c0 = self.ctx@;
 //|         proof { assert(c0.drop_last() =~= old(self).ctx@); }
 //@   loop 1 iter it
 //|             invariant self.lib == old(self).lib, self.ctx@ == c0, c0.len() > 0, c0.drop_last() == old(self).ctx@,
 //|                 gdslib.name@ == self.lib.name@, gdslib.units.0 == gds_units_of(self.lib.units).0, gdslib.units.1 == gds_units_of(self.lib.units).1,
-//|                 gdslib.structs@.len() <= it.index@, it.index@ <= self.lib.cells@.len(),
+//|                 it.index@ <= self.lib.cells@.len(), cells_pre(self.lib.cells@), structs_are(gdslib.structs@, self.lib.cells@.take(it.index@ as int)),
+//@   before /let cell = cell\.read\(\)\?;/
+//|             let ghost g0 = gdslib.structs@;
+//|             proof { let t1 = self.lib.cells@.take(it.index@ + 1); assert(*cell == self.lib.cells@[it.index@ as int]); assert(t1.drop_last() == self.lib.cells@.take(it.index@ as int)); assert(t1.last() == *cell); }
+//@   loopend 1
+//|             proof { let c = pointee(self.lib.cells@[it.index@ as int]); if c.layout is Some || c.abs is Some { assert(gdslib.structs@.drop_last() =~= g0); } }
+//@   before /^        self\.ctx\.pop\(\);\n        Ok\(gdslib\)|^        Ok\(gdslib\)$/
+//|         proof { assert(self.lib.cells@.take(self.lib.cells@.len() as int) == self.lib.cells@); }
 //@ end
     /// model of GdsExporter::export_layerspec (reads the library's layer table): the pair's numbers, or an error if the layer or the purpose is not defined
     #[verifier::external_body]
     pub fn export_layerspec(&mut self, layer: &LayerKey, purpose: &LayerPurpose) -> (r: LayoutResult<gds21::GdsLayerSpec>)
-        ensures final(self).ctx == old(self).ctx, r is Ok <==> nums_of(*layer, *purpose) is Some, r is Ok ==> r->Ok_0 == nums_of(*layer, *purpose)->0,
+        ensures final(self).lib == old(self).lib, final(self).ctx == old(self).ctx, r is Ok <==> nums_of(*layer, *purpose) is Some, r is Ok ==> r->Ok_0 == nums_of(*layer, *purpose)->0,
     { unimplemented!() }
 //@ fn layout21raw/src/gds.rs :: impl<'lib> GdsExporter<'lib> :: fn export_element
 //@   ret r
 //@   spec
 //|     requires shape_pre(elem.inner),
-//|     ensures r is Ok ==> final(self).ctx@ == old(self).ctx@ && elem_gds(r->Ok_0@, *elem),
+//|     ensures final(self).lib == old(self).lib, r is Ok ==> final(self).ctx@ == old(self).ctx@ && elem_gds(r->Ok_0@, *elem),
 //@ end
 //@ fn layout21raw/src/gds.rs :: impl<'lib> GdsExporter<'lib> :: fn export_layout
 //@   ret r
 //@   sub R6 /for gdselem in self\.export_element\(elem\)\?\.into_iter\(\) \{\s*elems\.push\(gdselem\);\s*\}/ => vp_extend_gds(&mut elems, self.export_element(elem)?);
 //@   sub R3 /let mut elems = Vec::with_capacity/ => let mut elems: Vec<gds21::GdsElement> = Vec::with_capacity
 //@   spec
-//|     requires cell.elems@.len() + cell.insts@.len() <= usize::MAX, forall|i: int| 0 <= i < cell.elems@.len() ==> shape_pre((#[trigger] cell.elems@[i]).inner),
-//|     ensures r is Ok ==> ({
-//|         let g = r->Ok_0; let n = cell.insts@.len() as int;
-//|         &&& final(self).ctx@ == old(self).ctx@ &&& g.name@ == cell.name@ &&& g.elems@.len() >= n
-//|         // first one structure reference per instance, in order
-//|         &&& forall|i: int| 0 <= i < n ==> (#[trigger] g.elems@[i]) is GdsStructRef && sref_gds(g.elems@[i]->GdsStructRef_0, cell.insts@[i])
-//|         // then the exports of the elements, in order
-//|         &&& elems_gds(g.elems@.skip(n), cell.elems@)
-//|     }),
+//|     requires layout_pre(*cell),
+//|     ensures final(self).lib == old(self).lib, r is Ok ==> final(self).ctx@ == old(self).ctx@ && layout_gds(r->Ok_0, *cell),
 //@   loop 1 iter it
-//|             invariant self.ctx@ == old(self).ctx@.push(ErrorContext::Impl), elems@.len() == it.index@, it.index@ <= cell.insts@.len(),
+//|             invariant self.lib == old(self).lib, self.ctx@ == old(self).ctx@.push(ErrorContext::Impl), elems@.len() == it.index@, it.index@ <= cell.insts@.len(),
 //|                 forall|i: int| 0 <= i < cell.elems@.len() ==> shape_pre((#[trigger] cell.elems@[i]).inner),
 //|                 forall|i: int| 0 <= i < it.index@ ==> (#[trigger] elems@[i]) is GdsStructRef && sref_gds(elems@[i]->GdsStructRef_0, cell.insts@[i]),
 //@   loop 2 iter it
-//|             invariant self.ctx@ == old(self).ctx@.push(ErrorContext::Impl).push(ErrorContext::Geometry), elems@.len() >= cell.insts@.len(), it.index@ <= cell.elems@.len(),
+//|             invariant self.lib == old(self).lib, self.ctx@ == old(self).ctx@.push(ErrorContext::Impl).push(ErrorContext::Geometry), elems@.len() >= cell.insts@.len(), it.index@ <= cell.elems@.len(),
 //|                 forall|i: int| 0 <= i < cell.elems@.len() ==> shape_pre((#[trigger] cell.elems@[i]).inner),
 //|                 forall|i: int| 0 <= i < cell.insts@.len() ==> (#[trigger] elems@[i]) is GdsStructRef && sref_gds(elems@[i]->GdsStructRef_0, cell.insts@[i]),
 //|                 elems_gds(elems@.skip(cell.insts@.len() as int), cell.elems@.take(it.index@ as int)),
